@@ -5,6 +5,7 @@ import PyhmsVerif.Model.Select
 import PyhmsVerif.Model.TreeProto
 import PyhmsVerif.Model.R5S
 import PyhmsVerif.Model.Engine
+import PyhmsVerif.Model.Multiwinner
 /-!
 Line-protocol driver: one operation per input line, one answer per output line.
 `lake env lean --run Driver.lean < ops.txt`
@@ -177,6 +178,13 @@ def handle : P String := do
     pure (match Engine.seaOffspring mx r pipe box pX pM par ⟨cont, pairs, mask, noise, values⟩ with
       | some g => showInds g.offspring ++ " | " ++ showReqs g.requests
       | none => "none")
+  | "mwsel" => do
+    -- mwsel <pop> <g> <k> <elections: group prefs orders>
+    let pop ← list indP; let g ← nat; let k ← nat
+    let es ← list (do
+      let group ← list nat; let prefs ← list (list nat); let orders ← list (list nat)
+      pure (⟨group, prefs, orders⟩ : MW.Election))
+    pure (showOpt showInds (MW.repeated pop g k es))
   | "rnd" => do
     let x ← rat
     pure (showOpt showRat (F64.rnd x))
